@@ -85,6 +85,12 @@ type VC struct {
 	discover bool
 	written  map[*ssa.BasicBlock]map[string]map[string]bool
 	writtenFrozen map[*ssa.BasicBlock]map[string]map[string]bool
+	protectedNow  bool             // a recovering deferred handler is registered: panics of the current instruction are its business
+	deferBlock    *ssa.BasicBlock  // block registering that handler
+	panicFrom     *State           // state right after the registration (deferred calls recorded)
+	panicStable   []*ssa.Alloc     // captured locals nothing writes after the registration
+	deferGuard    string           // reachability of the registration
+	privateCells  []*ssa.Alloc     // locals no callee without contract can reach
 	loopFrame     map[*loopInfo]map[string]bool // maps whose writes inside the loop must hit objects allocated by this call
 	curBlock *ssa.BasicBlock
 	curGuard string
@@ -161,6 +167,10 @@ func (vc *VC) oblige(kind, label string, props []string, guard, goal, text strin
 	}
 	if len(props) == 0 {
 		props = vc.spec.Props
+	}
+	if vc.protectedNow && strings.HasPrefix(kind, "nopanic") {
+		// a panic here is caught by the registered handler: covered by the panic path (see panicPath)
+		return &Obligation{Name: name, Kind: kind, Props: props, Guard: guard, Goal: "true", Text: text, Func: vc.name, Skip: true}
 	}
 	o := &Obligation{Name: name, Kind: kind, Props: props, Guard: guard, Goal: goal, Text: text, Func: vc.name}
 	if pos.IsValid() {
@@ -259,6 +269,16 @@ func (vc *VC) havoc(st *State, name, sort string) string {
 }
 
 func (vc *VC) havocAll(st *State, why string) {
+	// whether the goroutine is panicking is not something a callee changes behind our back
+	keepPanicking := ""
+	if _, ok := vc.P.spec.GhostVars["panicking"]; ok {
+		keepPanicking = vc.get(st, "G_panicking", "Iface")
+	}
+	defer func() {
+		if keepPanicking != "" {
+			st.vals["G_panicking"] = keepPanicking
+		}
+	}()
 	vc.epochN++
 	st.vals = map[string]string{}
 	st.parents = nil
